@@ -12,3 +12,4 @@ import AnyTLS.Props.C01
 #print axioms AnyTLS.C01.stream_delivery
 #print axioms AnyTLS.C01.foldl_push_pending
 #print axioms AnyTLS.C01.pipe_lossless
+#print axioms AnyTLS.C01.data_finds_new_stream
